@@ -42,3 +42,10 @@ A(M("r7-gen-residues-not-swapped", ["C03", "C11"], AN, "                yield re
 A(M("r7-gen-single-bond-pair", "C03", AN, "        if hydrogen_bond_count < 2:\n", "        if hydrogen_bond_count < 1:\n", None, **B310))
 A(M("r7-gen-occupied-one-side", "C03", AN, "        occupied.update(sides)\n", "        occupied.update(sides[:1])\n", None, **B310))
 A(M("r7-gen-none-test-order-silent", ["C03", "C11"], AN, "        if edges_i is None or edges_j is None:\n", "        if edges_j is None or edges_i is None:\n", kind="silent", **B310))
+
+# ---- C03-r11: dispatch tables keyed by the test `one_letter_name in "AG"` read like the branch they replace
+B311 = dict(base="C03-r11")
+A(M("r7-table-plane-atoms-order", ["C03", "C04"], TT, '    True: ("N9", "N7", "N3"),\n', '    True: ("N9", "N3", "N7"),\n', "base-normal", **B311))
+A(M("r7-table-plane-atoms-pyrimidine", ["C03", "C04"], TT, '    False: ("N1", "C4", "O2"),\n', '    False: ("N1", "C2", "O2"),\n', "base-normal", **B311))
+A(M("r7-table-glycosidic-swapped", ["C03", "C18"], AN, 'GLYCOSIDIC_NITROGEN = {True: "N9", False: "N1"}', 'GLYCOSIDIC_NITROGEN = {True: "N1", False: "N9"}', "cis-trans-atoms", **B311))
+A(M("r7-table-key-order-silent", ["C03", "C18"], AN, 'GLYCOSIDIC_NITROGEN = {True: "N9", False: "N1"}', 'GLYCOSIDIC_NITROGEN = {False: "N1", True: "N9"}', kind="silent", **B311))
